@@ -160,3 +160,30 @@ def taintedFrom (T : List Facts) (f : FnId) : List FnId :=
   (members T (reachFrom T f)).filter fun g => let x := getFacts T g; x.rdGlobal || x.rdHash
 
 end Cotengra.Flow
+
+/-!
+## hidden mutable state shared between an object and its copies
+
+Every non-inplace method of `ContractionTree` works on `self.copy()`, and `copy` is
+`set_state_from` (cotengra/core.py:305-349), which copies each attribute to some depth: 0 = by
+reference, 1 = `.copy()` (a new container holding the *same* values), 2 = `{k: v.copy() …}`.  An
+object is abstracted to the identities of its nested containers: `o p` is the identity of the
+container reached from the attribute by the key path `p` (so `p.length` is its depth).  Original
+identities are even; a copy to depth `d` gives the containers at depth `< d` fresh (odd)
+identities and shares the deeper ones.  An in-place mutation "at depth `m`" through an object
+writes into the container at the end of a path of length `m - 1`.
+-/
+namespace Cotengra.Share
+
+abbrev Obj := List Nat → Nat
+
+def copyD (d : Nat) (o : Obj) : Obj := fun p => if p.length < d then 2 * o p + 1 else o p
+
+def AllEven (o : Obj) : Prop := ∀ p, o p % 2 = 0
+
+/-- fact-table check: every attribute is copied at least as deep as it is mutated in place;
+    rows are `(copy depth, deepest in-place mutation)` -/
+def safe (rows : List (Nat × Nat)) : Bool := rows.all fun r => decide (r.2 ≤ r.1)
+
+end Cotengra.Share
+
